@@ -103,7 +103,12 @@ func (b *exampleBuilder) buildObjectKey(k ischema.ObjectNodeKey) ([]byte, error)
 	if err != nil {
 		return nil, err
 	}
-	return stdBytes.Trim(ex, `"`), nil
+	// The example of the key's type is a JSON string: take off its own quotes
+	// only (the text may end in an escaped one).
+	if len(ex) >= 2 && ex[0] == '"' && ex[len(ex)-1] == '"' {
+		ex = ex[1 : len(ex)-1]
+	}
+	return ex, nil
 }
 
 // escapeJSONString returns s the way it has to be written between the quotes
